@@ -177,9 +177,14 @@ func c20Stream(o *out, r *rng, thorough bool) {
 	// decrypt: exactly the reference plaintext (header cleared; 3k3y area blanked), file and stdout;
 	// then served back from a PS3ISO and a non-PS3ISO location without a second transformation
 	for ii := 0; ii < nImgs; ii++ {
-		kind := r.picks("redump", "3k3y")
+		// both formats in turn, and the first image of each with a valid table whatever the seed: the
+		// successful runs (new file, stdout) are where a stray byte on standard output would show
+		kind := []string{"redump", "3k3y"}[ii%2]
 		sectors := uint32(r.pick(8, 12, 20, 33))
 		im := genEncImage(r, "/img.iso", sectors, int64(r.pick(0, 0, 100)))
+		for ii < 2 && !im.valid {
+			im = genEncImage(r, "/img.iso", sectors, int64(r.pick(0, 0, 100)))
+		}
 		key := randKey(r)
 		if kind == "3k3y" {
 			im.node.overlays = append(im.node.overlays, overlay{0xF70, wmEnc}, overlay{0xF80, key})
